@@ -12,7 +12,9 @@ use std::sync::atomic::{AtomicU64, Ordering};
 use std::sync::Mutex;
 use std::time::Instant;
 
-pub const VERIF_DIR: &str = "/verif";
+pub fn verif_dir() -> String {
+    std::env::var("VERIF_DIR").unwrap_or_else(|_| "/verif".to_string())
+}
 
 #[derive(Clone, Copy, Debug, PartialEq, Eq)]
 pub enum Tier {
@@ -142,7 +144,7 @@ pub struct KnownFinding {
 }
 
 pub fn load_known_findings() -> Vec<KnownFinding> {
-    let path = format!("{}/known_findings.json", VERIF_DIR);
+    let path = format!("{}/known_findings.json", verif_dir());
     match std::fs::read_to_string(&path) {
         Ok(s) => serde_json::from_str(&s).unwrap_or_else(|e| {
             eprintln!("HARNESS-ERROR: cannot parse {}: {}", path, e);
@@ -383,7 +385,7 @@ pub fn run_check<E: Engine>(engine: &E, cfg: &Cfg) -> Outcome {
             detail: v.detail.clone(),
             case: serde_json::to_value(&min_case).unwrap(),
         };
-        let dir = format!("{}/replays", VERIF_DIR);
+        let dir = format!("{}/replays", verif_dir());
         let _ = std::fs::create_dir_all(&dir);
         let path = format!("{}/{}-{}-{}.json", dir, cfg.property, cfg.seed, r.idx);
         std::fs::write(&path, serde_json::to_string_pretty(&rf).unwrap()).unwrap();
@@ -444,7 +446,7 @@ pub fn run_check<E: Engine>(engine: &E, cfg: &Cfg) -> Outcome {
         "wall_s": wall,
         "violations": violation_count
     });
-    let edir = format!("{}/evidence", VERIF_DIR);
+    let edir = format!("{}/evidence", verif_dir());
     let _ = std::fs::create_dir_all(&edir);
     let epath = format!("{}/{}.json", edir, cfg.property);
     std::fs::write(&epath, serde_json::to_string_pretty(&evidence).unwrap()).unwrap();
